@@ -3,6 +3,26 @@ TB = ("Trusted: rustc nightly MIR at mir-opt-level=0 as a faithful rendering of 
       "analyzer/stdmodel.py; the analyzer itself (tested both ways by selftest/ and seeded/).")
 
 CLAIMS = {
+    "C04": {
+        "category": "other",
+        "text": "Necessary structural conditions of loss tolerance, decided on the MIR of both worker closures for all fault sequences at once: "
+                "retransmission of the window behind the time-out test with the timer re-armed only after a burst; a re-acknowledgement on every "
+                "non-progress DATA cycle of the receiver; retry budget >= 6 that stale ACKs / duplicate DATA neither consume nor turn into an abort; "
+                "an accepted ACK cannot abort. Completion under a given loss pattern (liveness over schedules) is NOT decided.",
+        "design_ref": "DESIGN.md section 4 C04",
+        "note": TB + " Peer behaviour is not modelled: rules quantify over all results of the socket receive.",
+        "technique": "path / dominance / cycle queries on the explored inlined supergraph + discharged obligations of the abstract interpreter",
+    },
+    "C07": {
+        "category": "other",
+        "text": "Ranking argument for the retry loops (receive-failed cycles increment a counter tested against a constant bound whose true edge "
+                "returns Err with no further socket event; receives are time-bounded), peer-ERROR edges reach return-Err without send/receive, the "
+                "OACK reply is accepted only as ACK 0, typestate 'nothing queued after the short chunk' and 'no receive after the final block' proved "
+                "by ghost monitors inside the abstract interpreter, Ok return of the sender only behind the queue-empty test. Wall-clock bounds are not decided.",
+        "design_ref": "DESIGN.md section 4 C07",
+        "note": TB + " A-READ: File::read is short only at end of file.",
+        "technique": "cycle / dominance queries on the inlined supergraph + ghost-variable typestate discharged by abstract interpretation (Houdini loop invariants)",
+    },
     "C05": {
         "category": "proof",
         "text": "Proof, by abstract interpretation of Server::listen with all crate-local callees inlined and for all datagrams and option values, "
